@@ -1,5 +1,8 @@
 use std::collections::HashMap;
+#[cfg(not(cached_verif))]
 use std::sync::atomic::{AtomicU64, Ordering};
+#[cfg(cached_verif)]
+use shuttle::sync::atomic::{AtomicU64, Ordering};
 
 use crossbeam_utils::CachePadded;
 
